@@ -48,13 +48,21 @@ def gen2(n):
     g(201)
     yield r
 
+def gen3(n):
+    # yields that are the right-hand side of chained and unpacking assignments
+    g(400)
+    r = s = yield 0
+    g(401)
+    t, u = (yield 1), 0
+    g(402)
+
 def drv(steps):
     out = []
     for step in steps:
         out.append(step())
     return out
 '''
-OVERLAYS = {"OG": "gen > g > w", "OW": "g > w", "OG2": "gen2 > g > w"}
+OVERLAYS = {"OG": "gen > g > w", "OW": "g > w", "OG2": "gen2 > g > w", "OG3": "gen3 > g > w"}
 
 
 _NS = [None]
@@ -65,7 +73,7 @@ def shared_ns():
     is back on its original code after a run (checked in Run); otherwise it is rebuilt."""
     if _NS[0] is None:
         ns = world.make_module(SRC, pin=True)
-        ns["__orig__"] = {k: ns[k].__code__ for k in ("g", "gen", "gen2", "sub", "drv")}
+        ns["__orig__"] = {k: ns[k].__code__ for k in ("g", "gen", "gen2", "gen3", "sub", "drv")}
         _NS[0] = ns
     return _NS[0]
 
@@ -81,8 +89,8 @@ class Run:
         world.reset_context()
         self.ns = shared_ns()
         ns = self.ns
-        env = {k: ns[k] for k in ("g", "gen", "gen2", "drv", "sub")}
-        self.events = {"OG": [], "OW": [], "OG2": [], "PD": []}
+        env = {k: ns[k] for k in ("g", "gen", "gen2", "gen3", "drv", "sub")}
+        self.events = {"OG": [], "OW": [], "OG2": [], "OG3": [], "PD": []}
         self.obs = []
         self.gens = {}
         self.active = {}
@@ -90,7 +98,7 @@ class Run:
         handler_slot = {}
         probes = {}
         # the functions are instrumented for the whole run by non-delivering probes
-        base = [probing("gen > g > w", env=env), probing("gen2 > g > w", env=env), probing("g > w", env=env)]
+        base = [probing("gen > g > w", env=env), probing("gen2 > g > w", env=env), probing("gen3 > g > w", env=env), probing("g > w", env=env)]
         if inside_driver:
             pd = probing("drv > g > w", env=env)
             pd.subscribe(lambda ev: self.events["PD"].append(ev["w"]))
@@ -197,7 +205,7 @@ class System:
     def enabled(self, m):
         entered, gens, ncalls = m
         ops = []
-        for o in ("OG", "OW") + (("OG2",) if "gen2" in self.kinds else ()):
+        for o in ("OG", "OW") + (("OG2",) if "gen2" in self.kinds else ()) + (("OG3",) if "gen3" in self.kinds else ()):
             if o not in entered:
                 ops.append(("enter", o))
         if entered:
@@ -271,7 +279,7 @@ class System:
                 for o in OVERLAYS:
                     want = (value,) if (o == "OW" and "OW" in entered) else ()
                     if new[o] != want:
-                        tag = "leak" if o in ("OG", "OG2") else "g>w"
+                        tag = "leak" if o in ("OG", "OG2", "OG3") else "g>w"
                         probs.append(f"[{name}] driver call g({value}): overlay {o} ({OVERLAYS[o]}) received {new[o]!r}, expected {want!r} <{tag}>")
                 if name == "inside drv" and new["PD"] != (value,):
                     probs.append(f"[{name}] driver call g({value}): 'drv > g > w' received {new['PD']!r}, expected exactly one event")
@@ -286,7 +294,7 @@ class System:
 
 
 def kinds_for(tier):
-    return [("gen", "gen"), ("gen2", "gen")]
+    return [("gen", "gen"), ("gen2", "gen"), ("gen3", "gen")]
 
 
 def units(tier):
